@@ -1,5 +1,5 @@
 """Registered checks (MANIFEST.json is generated from this by bin/mkmanifest)."""
-HOOK_COMMITS = ["40b967db", "65b4d8cb"]
+HOOK_COMMITS = ["40b967db", "65b4d8cb", "2ba5634d"]
 NOTES = ("One entry point: bin/check <id> [--tier quick|thorough] [--replay file]. Specifications in spec/, "
          "Go conformance harnesses in harness/, orchestration in lib/. Verdicts come only from traces recorded "
          "from the real code and judged by TLC against the black-box specifications; see DESIGN.md.")
